@@ -606,7 +606,9 @@ class PositionArray(PosBase):
     def empty_from(cls, other: "PositionArray") -> "PositionArray":
         """Create a new position delta of the same type as other but with NaN values
         """
-        return _SYSTEMS[cls.cls_name][other.system](np.full(other.shape, fill_value=np.nan), ellipsoid=ellipsoid)
+        return _SYSTEMS[cls.cls_name][other.system](
+            np.full(other.shape, fill_value=np.nan), ellipsoid=other.ellipsoid
+        )
 
     @classmethod
     def convert_to(cls, pos: "PositionArray", converter: Callable) -> "PositionArray":
